@@ -287,7 +287,14 @@ def _run(ctx):
                 ok = s.c[1].cv == 4 and bool(fn.calls("write_magic")) and fn.cfg.node_dominates(fn.calls("write_magic")[0], s)
                 ctx.ob("R6.offsets", key, P.where(s), "file_offset is set to 4 only after the leading magic was written", ok)
             elif amount_node is not None:
-                amount = lvalue_text(amount_node.strip_casts())
+                an_ = amount_node.strip_casts()
+                if an_.k == "DeclRefExpr" and an_.get("dk") == "local":
+                    # a named temporary for the amount (`const int64_t n = (int64_t)size;`) stands for its only value
+                    from ..canon import info as _linfo2
+                    d1 = _linfo2(fn).single_def(an_.get("d"))
+                    if d1 is not None and d1.strip_casts().k in ("DeclRefExpr", "MemberExpr"):
+                        an_ = d1.strip_casts()
+                amount = lvalue_text(an_)
                 # fwrite itself, or a helper of the file that hands that argument to fwrite as the byte count
                 wrappers = {}
                 for g_ in P.funcs_in(FW):
